@@ -17,21 +17,23 @@ Zero(r) == [p \in DOMAIN r.pc |-> 0]
 NormOut(o) == [p \in DOMAIN o |-> IF o[p] = "noop" THEN "ok" ELSE o[p]]
 
 Observed(r) == /\ pc' = r.pc /\ objs' = r.objs /\ smap' = SmapOf(r.smap)
-               /\ used' = r.used /\ missing' = r.missing /\ reg' = r.reg
+               /\ used' = r.used /\ missing' = r.missing /\ reg' = r.reg /\ npswc' = r.npswc
                /\ blocked' = r.blocked /\ cur' = r.cur
 
 Load(r) == /\ par' = r.par /\ Observed(r) /\ out' = r.out /\ mine' = r.mine
            /\ lu' = Zero(r) /\ lc' = Zero(r) /\ hist' = <<>>
+           /\ creg' = (IF Len(r.par.pre) > 0 THEN {1} ELSE {})
 
 TInit == /\ l = 1 /\ Trace[1].ev = "reset"
          /\ LET r == Trace[1] IN
               /\ par = r.par /\ pc = r.pc /\ out = r.out /\ objs = r.objs /\ smap = SmapOf(r.smap)
-              /\ used = r.used /\ missing = r.missing /\ reg = r.reg /\ blocked = r.blocked /\ cur = r.cur
+              /\ used = r.used /\ missing = r.missing /\ reg = r.reg /\ npswc = r.npswc /\ blocked = r.blocked /\ cur = r.cur
+              /\ creg = (IF Len(r.par.pre) > 0 THEN {1} ELSE {})
               /\ mine = r.mine /\ lu = Zero(r) /\ lc = Zero(r) /\ hist = <<>>
 
 ObsStep(r) == /\ r.ev \in {"step", "skip", "blocked"}
               /\ Observed(r) /\ out' = r.out /\ mine' = r.mine
-              /\ UNCHANGED <<par, lu, lc, hist>>
+              /\ UNCHANGED <<par, creg, lu, lc, hist>>
 
 ConfStep(r) ==
   \/ /\ r.ev = "step"
@@ -44,7 +46,7 @@ ConfStep(r) ==
 \* a reset line must start from what the spec's Init says for that scenario (conf mode)
 ResetOK(r) == ~Conf \/ (LET P == r.par IN
                  /\ r.used = SeqSum([i \in 1..Len(P.pre) |-> P.pre[i].cu])
-                 /\ r.reg = (Len(P.pre) > 0)
+                 /\ r.reg = (Len(P.pre) > 0) /\ r.npswc = (IF Len(P.pre) > 0 THEN 1 ELSE 0)
                  /\ Len(r.objs) = Len(P.pre)
                  /\ \A i \in 1..Len(P.pre) : r.objs[i] = [sid |-> P.pre[i].sid, cuSum |-> P.pre[i].cu, latest |-> 0,
                                                           relayNum |-> 1, locked |-> FALSE]
